@@ -4,7 +4,8 @@
       bytes, was flushed and accepted nothing after its last successful flush.
    M: index of the failing API call and its error kind, then the same details as C07.
    Family "cont\tkind\tkeys\tk=<k>/<W>\tat=..\t<fault>" (caller keeps going after the error):
-   S = finished=no whenever the fault is consumed (Writer.cont_spec_finished), M = na. *)
+   S = finished=no whenever the fault is consumed (Writer.cont_spec_finished), M = results of every call and
+   of into_inner, sink length and digest according to Writer.run_session_cont. *)
 let kind_of_string (s : string) : ioerr =
   match s with
   | "other" -> IoOther
@@ -78,6 +79,22 @@ let m_common (r : run) npre total : string =
     (List.length r.data) r.wcalls r.flushes (fnv r.data (npre + total)) r.unfl
 let handle (line : string) : string =
   match split_on '\t' line with
+  | ["cont"; _kind; _keys; kw; _at; fault; calls] ->
+    (* "k=<k>/<w>": S is the specification (not finished once the fault is consumed); M is the model of
+       the caller that keeps going (Writer.run_session_cont): k accepting responses, the fault, then the
+       default (accept everything) *)
+    (match split_on '/' (String.sub kw 2 (String.length kw - 2)) with
+     | [k; w] ->
+       let fin_ok = cont_spec_finished (nat_of_int (int_of_string k)) (nat_of_int (int_of_string w)) in
+       let (cs, fin) = parse_calls calls in
+       let script = List.init (int_of_string k) (fun _ -> Accept (nat_of_int 1000)) @ parse_script fault in
+       let o = x_cont_session script FlushOk [] cs fin in
+       let sts = String.concat "," (List.map (fun (((st, _), _), _) -> status_string st) o.o_calls) in
+       let fs = match o.o_fin with None -> "none" | Some (((st, _), _), _) -> status_string st in
+       let data = o.o_final.s_data in
+       "S:" ^ (if fin_ok then "finished=yes" else "finished=no") ^
+       Printf.sprintf "\tM:%s|%s|len=%d|dig=%08x" sts fs (List.length data) (fnv data (List.length data))
+     | _ -> "BADCASE")
   | [_kind; _keys; prefill; cap; script; flush; calls] ->
     let prefill = bytes_of_hex prefill in
     let (cs, fin) = parse_calls calls in
@@ -102,12 +119,5 @@ let handle (line : string) : string =
           else "finished-incomplete" in
     let f = match fe with Some (i, k) -> Printf.sprintf "fail=%d:%s" i (string_of_kind k) | None -> "fail=none" in
     "S:" ^ s ^ "\tM:" ^ f ^ "|" ^ m_common r npre total
-  | ["cont"; _kind; _keys; kw; _at; _fault] ->
-    (* "k=<k>/<w>": only the specification speaks here; the post-error builder is not modelled *)
-    (match split_on '/' (String.sub kw 2 (String.length kw - 2)) with
-     | [k; w] ->
-       let fin = cont_spec_finished (nat_of_int (int_of_string k)) (nat_of_int (int_of_string w)) in
-       "S:" ^ (if fin then "finished=yes" else "finished=no") ^ "\tM:na"
-     | _ -> "BADCASE")
   | _ -> "BADCASE"
 let () = main_loop handle
